@@ -269,6 +269,11 @@ pub fn replay_rows<P: PT, C: Coll<P>>(
         }
         let Some(mut row) = parse_row(&line) else { continue };
         if let Some(s) = row.get("s") {
+            // memory guard for very large tables: beyond this many pending states new ones are not
+            // remembered (their rows are skipped and counted in no_state_row)
+            if pre.len() > 1_500_000 {
+                continue;
+            }
             pre.insert(
                 serde_json::to_string(s).unwrap(),
                 (row["f"].clone(), row["fx"].clone(), row["dr"].as_i64().unwrap_or(0)),
